@@ -558,7 +558,8 @@ func (h *vC27History) run(nOps, invalidBias int) (applied map[string]int, err er
 		allowed, reason := h.model.allowed(op, signer, payee)
 		// an operation the lifecycle forbids stays forbidden when it is stamped a little earlier than the latest
 		// record (inside the 12 h the store looks ahead): between the two latest records of the history
-		if n := len(h.model.hist); !allowed && n >= 2 && h.rng.Intn(3) == 0 {
+		backdatedPledge := allowed && op == "pledge" && k > nOps*2/3 && h.rng.Intn(6) == 0
+		if n := len(h.model.hist); (!allowed && h.rng.Intn(3) == 0 || backdatedPledge) && n >= 2 {
 			last, prev := h.model.hist[n-1].Ts, h.model.hist[n-2].Ts
 			const lookahead = uint64(12 * 3600 * 1e9)
 			if last > prev+1 {
@@ -566,11 +567,31 @@ func (h *vC27History) run(nOps, invalidBias int) (applied map[string]int, err er
 				if last-lo >= lookahead {
 					lo = last - lookahead + 1
 				}
-				ts = lo + uint64(h.rng.Int63n(int64(last-lo)))
+				cand := lo + uint64(h.rng.Int63n(int64(last-lo)))
+				if allowed {
+					// only at an instant at which, by the history up to it, nobody was pledging either
+					_, then := h.model.view(cand)
+					for _, e := range then {
+						if e.State == common.NodeStatePledging {
+							cand = 0
+						}
+					}
+				}
+				if cand == 0 {
+					goto stamped
+				}
+				ts = cand
 				intent += "+stamped-before-the-latest-record"
-				r.Count("forbidden_operations_stamped_before_the_latest_record", 1)
+				if allowed {
+					// a pledge of a new signer while nobody is pledging is allowed at such a timestamp too; from then on
+					// that node is the pledging one
+					r.Count("pledges_of_new_signers_stamped_before_the_latest_record", 1)
+				} else {
+					r.Count("forbidden_operations_stamped_before_the_latest_record", 1)
+				}
 			}
 		}
+	stamped:
 		tx := h.buildTx(op, signer, payee)
 		parsed, perr := verifgen.Reparse(tx)
 		if perr != nil {
@@ -645,7 +666,12 @@ func (h *vC27History) run(nOps, invalidBias int) (applied map[string]int, err er
 			applied[op]++
 			r.Count("applied_"+op, 1)
 			r.Nontrivial("applied|" + hash.String())
-			h.model.hist = append(h.model.hist, vC27Entry{Signer: signer, Payee: payee, State: vC27StateOf(op), Tx: hash, Ts: ts})
+			ne := vC27Entry{Signer: signer, Payee: payee, State: vC27StateOf(op), Tx: hash, Ts: ts}
+			at := len(h.model.hist)
+			for at > 0 && h.model.hist[at-1].Ts > ts {
+				at--
+			}
+			h.model.hist = append(h.model.hist[:at], append([]vC27Entry{ne}, h.model.hist[at:]...)...)
 			after = "applied-" + op
 		}
 		if len(h.trace) < 14 {
